@@ -35,8 +35,6 @@ grammar has no parenthesised compound operands; DuckDB runs them).
 """
 import fractions
 import itertools
-import json
-import os
 import random
 
 from harness import dslgen as g
@@ -295,6 +293,24 @@ def engine_excluded(ast, engine):
     return None
 
 
+def row_bound(ast, data):
+    """Upper bound of the rows any join of the statement can produce over this content (product of the sizes of the
+    tables under each query's origin).  Observations beyond MAX_ROWS are not made: the reference evaluator is quadratic
+    in the number of candidate rows (decided on statement + content alone)."""
+    worst = 0
+    for src, _ in _sources(ast):
+        if src['t'] == 'query':
+            size = 1
+            for leaf in _leaves(src['l']):
+                base = leaf['l'] if leaf['t'] == 'ref' else leaf
+                size *= max(1, len(data[base['name']])) if base['t'] == 'table' else 6
+            worst = max(worst, size)
+    return worst
+
+
+MAX_ROWS = 450
+
+
 def needs_keyed(ast):
     """The statement is only determined over a keyed database (nested window relying on the unique column)."""
     return any(src['t'] == 'query' and not top and src['rows'] for src, top in _sources(ast))
@@ -503,8 +519,6 @@ def rand_origin(rnd, depth, safe, names):
     if r < 0.35:
         return g.ref(rand_query(rnd, depth - 1, safe, True, names), names())
     left = rand_origin(rnd, depth - 1, safe, names)
-    used = {leaf['l']['name'] if leaf['t'] == 'ref' and leaf['l']['t'] == 'table' else leaf['name']
-            for leaf in _leaves(left) if leaf['t'] == 'table' or leaf['l']['t'] == 'table'}
     direct = {leaf['name'] for leaf in _leaves(left) if leaf['t'] == 'table'}
     cands = [t for t in tabs if t['name'] not in direct]
     right = g.ref(_pick(rnd, tabs), names()) if not cands or rnd.random() < 0.3 else _pick(rnd, cands)
@@ -836,11 +850,13 @@ def printed_tuples(stdout, head):
     """PrintT(<<"HEAD", ...>>) values of a TLC run as python lists; unlike tlc.Result.tuples this also reads the
     values TLC wraps over several lines (long verdict tuples)."""
     from harness import tlc
-    out, mark, pos = [], f'<<"{head}"', 0
+    import re
+    out, mark, pos = [], re.compile(r'<<\s*"%s"' % re.escape(head)), 0
     while True:
-        start = stdout.find(mark, pos)
-        if start < 0:
+        found = mark.search(stdout, pos)
+        if not found:
             return out
+        start = found.start()
         depth, i, quoted = 0, start, False
         while i < len(stdout):
             ch = stdout[i]
@@ -858,3 +874,81 @@ def printed_tuples(stdout, head):
         text = ' '.join(stdout[start:i + 1].split())
         out.append(tlc.parse_tla(text)[1:])
         pos = i + 1
+
+
+# ------------------------------------------------------------------------------------------------ as-is model variant
+_FIXES = None
+
+
+def detect_fixes():
+    """Which of the proposed repairs the code under test already carries (names of specs/FactorsImpl.tla ``Fixed``),
+    found out by probing the public API with the witnesses of the findings.  Only selects the VARIANT of the as-is model
+    that is compared with the code (finding attribution, drift); no verdict depends on it."""
+    global _FIXES  # pylint: disable=global-statement
+    if _FIXES is not None:
+        return _FIXES
+    A = g.table('A', [('x', 'int'), ('y', 'int'), ('b', 'bool')])
+    B = g.table('B', [('x', 'int')])
+    R = g.ref(A, 'r')
+    ax, ay, ab, bx, rx = g.col(A, 'x'), g.col(A, 'y'), g.col(A, 'b'), g.col(B, 'x'), g.col(R, 'x')
+    one = g.lit(1)
+    fixes = set()
+
+    def factors(node):
+        pred = g.build(node)
+        return {repr(t): g.project(p) for t, p in pred.factors.items()}
+
+    def probe(name, fn):
+        try:
+            if fn():
+                fixes.add(name)
+        except Exception:  # pylint: disable=broad-except
+            pass
+
+    probe('merge', lambda: set(factors(g.op('and', g.op('eq', ax, one), g.op('eq', bx, one)))) == {'A', 'B'})
+    probe('nonpredicate', lambda: factors(g.op('and', ab, g.op('eq', ax, one))) is not None)
+    probe('refelem', lambda: factors(g.op('lt', ax, rx)) == {})
+    probe('not', lambda: factors(g.op('not', g.op('eq', ax, one)))['A']['op'] == 'not')
+    probe('or', lambda: factors(g.op('or', g.op('eq', ax, one), g.op('lt', ax, bx))) == {})
+    probe('eqjoin', lambda: 'x' in record_hints(g.query(g.join(A, B, 'inner', g.op('eq', ax, bx)), [ay]))['hints'][0]['cols'])
+    probe('outer', lambda: record_hints(g.query(g.join(A, B, 'left', g.op('and', g.op('eq', ay, one), g.op('lt', ax, bx))),
+                                                [ay, bx]))['hints'][0]['pred']['f'] == 'nil')
+    _FIXES = sorted(fixes)
+    return _FIXES
+
+
+# ------------------------------------------------------------------------------------------------ lazy feed columns (C14)
+_LAZY = {}
+
+
+def lazy_columns(ast):
+    """Columns the lazy feed reader asks its origins for (public hook ``lazy.Origin.partitions(columns, predicate)``)
+    when reading the statement: {'res': 'ok' | '<stage>:<Type>', 'cols': {table: [names]}}.  The origins are inline
+    monolite origins over the catalog tables holding one row each."""
+    from forml.provider.feed import lazy, monolite
+    if 'feed' not in _LAZY:
+        seen = {}
+
+        class Spy(monolite.Inline):
+            def partitions(self, columns, predicate):
+                seen.setdefault(repr(self.source), set()).update(c.name for c in columns)
+                return super().partitions(columns, predicate)
+
+        tables = {name: g.build(node) for name, node in g.TABLES.items()}
+        sample = {'int': 1, 'float': 1.0, 'str': 'a', 'bool': True}
+        origins = [Spy(tab, [[sample[k] for _, k in g.CATALOG[name]]]) for name, tab in tables.items()]
+        feed = lazy.Feed(*origins)
+        _LAZY.update(feed=feed, seen=seen,
+                     reader=type(feed).producer(feed.sources, feed.features, origins=origins))
+    _LAZY['seen'].clear()
+    stage = 'build'
+    try:
+        stmt = g.build(ast)
+        stage = 'read'
+        _LAZY['reader'](stmt)
+    except Exception as exc:  # pylint: disable=broad-except
+        if not _LAZY['seen']:
+            return {'res': f'{stage}:{type(exc).__name__}', 'cols': {}}
+    if not _LAZY['seen']:
+        return {'res': 'cached', 'cols': {}}   # an equal SQL text was read before: the origins were not asked at all
+    return {'res': 'ok', 'cols': {t: sorted(c) for t, c in _LAZY['seen'].items()}}
